@@ -168,7 +168,7 @@ void vd_audio_make(vh_rng *r, int lang, int kind, long max_samples, vd_audio *ou
 void vd_audio_free(vd_audio *a) { free(a->s); a->s = NULL; a->n = 0; }
 
 /* ================= decoders ================= */
-void vd_cfg_default(vd_cfg *c, int lang) { c->lang = lang; c->samprate = 16000; c->cmn = "live"; c->compallsen = 0; c->frate = 100; c->cionly = 0; c->ds = 1; }
+void vd_cfg_default(vd_cfg *c, int lang) { memset(c, 0, sizeof(*c)); c->lang = lang; c->samprate = 16000; c->cmn = "live"; c->compallsen = 0; c->frate = 100; c->cionly = 0; c->ds = 1; }
 config_t *vd_make_config(const vd_cfg *c)
 {
     config_t *cf = config_init(NULL);
@@ -192,13 +192,16 @@ config_t *vd_make_config(const vd_cfg *c)
     if (c->frate != 100) config_set_int(cf, "frate", c->frate);
     if (c->cionly) config_set_bool(cf, "cionly", 1);
     if (c->ds > 1) config_set_int(cf, "ds", c->ds);
+    if (c->warp_type) config_set_str(cf, "warp_type", c->warp_type);
+    if (c->warp_params) config_set_str(cf, "warp_params", c->warp_params);
     return cf;
 }
 #define VD_POOL 4
 static struct { vd_cfg c; decoder_t *d; long used; } pool[VD_POOL]; static long pool_clock;
 static int cfg_same(const vd_cfg *a, const vd_cfg *b)
 {
-    return a->lang == b->lang && a->samprate == b->samprate && a->compallsen == b->compallsen && a->frate == b->frate && a->cionly == b->cionly && a->ds == b->ds && strcmp(a->cmn ? a->cmn : "", b->cmn ? b->cmn : "") == 0;
+    return a->lang == b->lang && a->samprate == b->samprate && a->compallsen == b->compallsen && a->frate == b->frate && a->cionly == b->cionly && a->ds == b->ds && strcmp(a->cmn ? a->cmn : "", b->cmn ? b->cmn : "") == 0
+        && strcmp(a->warp_type ? a->warp_type : "", b->warp_type ? b->warp_type : "") == 0 && strcmp(a->warp_params ? a->warp_params : "", b->warp_params ? b->warp_params : "") == 0;
 }
 decoder_t *vd_decoder_fresh(const vd_cfg *c)
 {
